@@ -8,7 +8,30 @@ Import ListNotations.
 Open Scope string_scope.
 
 (* ---- the model's prediction ------------------------------------------------------------------- *)
-Inductive predicted := PredValue (v : Z) | PredFailed (ids : list string) | PredOther (why : string).
+(* PredAborted ids more: an exception that compiler.py turns into a report stopped the evaluation of the operand
+   after [ids] were reported.  Operands whose value is deferred (forward symbols) are evaluated later than constant
+   ones, so reports of sub-expressions to the right of the one that gave up may or may not have been made: [more]
+   is everything any sub-expression can report. *)
+Inductive predicted := PredValue (v : Z) | PredFailed (ids : list string) | PredAborted (ids more : list string)
+                     | PredOther (why : string).
+
+Section Reports.
+Variable syms : list (string * Z).
+Variable dot : Z.
+Definition reports_at (t : ptree) : list string :=
+  match meval enc_string (fun s => assoc s syms) dot t with
+  | Ok (_, e) => e
+  | Err e => e
+  | _ => []
+  end.
+Fixpoint all_reports (t : ptree) : list string :=
+  (reports_at t ++
+   match t with
+   | PInfix _ l r | PCall l r => all_reports l ++ all_reports r
+   | PPrefix _ x | PPostfix _ x | PParen _ x => all_reports x
+   | _ => []
+   end)%list.
+End Reports.
 
 Definition predict (tokens : list token) (syms : list (string * Z)) (dot : Z) : predicted :=
   match parse_operand tokens with
@@ -16,7 +39,7 @@ Definition predict (tokens : list token) (syms : list (string * Z)) (dot : Z) : 
       match meval enc_string (fun s => assoc s syms) dot t with
       | Ok (v, []) => match dword_of v with Some w => PredValue w | None => PredFailed ["value-out-of-bounds"] end
       | Ok (v, errs) => match dword_of v with Some _ => PredFailed errs | None => PredFailed ("value-out-of-bounds" :: errs) end
-      | Err ids => PredFailed ids
+      | Err ids => PredAborted ids (all_reports syms dot t)
       | Crash s => PredOther s
       | OutOfFuel => PredOther "fuel"
       end
@@ -30,6 +53,7 @@ Definition matches (p : predicted) (o : observed) : bool :=
   match p, o with
   | PredValue v, ObsValue w => Z.eqb v w
   | PredFailed ids, ObsFailed ids' => same_set ids ids'
+  | PredAborted ids more, ObsFailed ids' => subset ids ids' && subset ids' (ids ++ more)
   | _, _ => false
   end.
 
